@@ -44,9 +44,16 @@ func init() {
 	c12ExtraSources = append(c12ExtraSources, func(r *vlib.Rand) []byte {
 		region := fxCat(c11OpBytes(pOpOpRegion), fxNS("", "RAA0"), []byte{byte(r.Intn(10)), 0x0a, 0, 0x0b, 0, 1})
 		var fields [][]byte
-		n := r.Range(1, 4)
+		n := r.Range(1, 5)
 		for i := 0; i < n; i++ {
-			switch r.Intn(4) {
+			switch r.Intn(6) {
+			case 4, 5: // Connection(Buffer) whose package length is 0, 1 or 2: no room for the size constant, or for nothing at all
+				pl := byte(r.Intn(3))
+				el := []byte{0x02, byte(pOpBuffer), pl}
+				if pl == 2 {
+					el = append(el, byte(r.PickInt([]int{int(pOpBytePrefix), int(pOpZero), 0xff})))
+				}
+				fields = append(fields, el)
 			case 0, 1: // Connection(Buffer(size){data})
 				data := r.Bytes(r.Intn(12))
 				body := fxCat(c12xConst(r, c12xLen(r)), data)
